@@ -95,6 +95,8 @@ pub struct DScn {
     pub user: Vec<(usize, Side, UserOp)>,
     pub strays: bool,
     pub horizon: usize,
+    /// initial value of every daemon's transaction sequence counter (None: U16(7))
+    pub seq_start: Option<VariableID>,
 }
 
 /// the explorer's alphabet
@@ -184,7 +186,7 @@ struct Exec {
     inflight: Vec<Flight>,
     slot_expect: Vec<VecDeque<Vec<u8>>>,
     twins: Vec<Twin>,
-    pending_cmd: HashMap<(TransactionID, &'static str), VecDeque<PDU>>,
+    pending_cmd: HashMap<(usize, TransactionID), VecDeque<PDU>>, // by (daemon the PDU was injected into, id)
     ghost: HashMap<TransactionID, (u64, bool)>, // stray-spawned receivers: (ms of last delivery, exited)
     next_put: usize,
     user_used: Vec<bool>,
@@ -197,6 +199,7 @@ struct Exec {
     stray_menu_len: usize,
     finished_pdus: Vec<(usize, Vec<u8>)>, // (destination daemon, bytes) of everything ever delivered
     initial_inds: Vec<String>,
+    sent_pdus: Vec<(usize, Vec<u8>)>, // (originating daemon, bytes) of everything ever taken from a slot
 }
 
 thread_local! {
@@ -233,7 +236,7 @@ impl Exec {
             let mut map = HashMap::new();
             map.insert(peers, transport);
             let fs = Arc::new(NativeFileStore::new(camino::Utf8Path::new(root.to_str().unwrap())));
-            let mut daemon = Daemon::new(ent(i), VariableID::from(SEQ), map, fs, HashMap::new(), entity_config(&scn.cfg), prim_rx, ind_tx);
+            let mut daemon = Daemon::new(ent(i), scn.seq_start.unwrap_or(VariableID::from(SEQ)), map, fs, HashMap::new(), entity_config(&scn.cfg), prim_rx, ind_tx);
             let task = tokio::spawn(async move { daemon.manage_transactions().await.is_ok() });
             d.push(DaemonH { ent: ent(i), prim_tx, ind_rx, in_tx, take_tx, out_rx, task, root });
         }
@@ -259,7 +262,8 @@ impl Exec {
             t0: tokio::time::Instant::now(),
             validated: 0,
             violations: vec![],
-            stray_menu_len: 6,
+            stray_menu_len: 8,
+            sent_pdus: vec![],
             finished_pdus: vec![],
             initial_inds: vec![],
             scn,
@@ -306,7 +310,7 @@ impl Exec {
                     }
                     LoopStep::Pdu => {
                         let now = self.now_ms();
-                        self.pending_cmd.get_mut(&(id, role)).and_then(|q| q.pop_front());
+                        self.pop_pending(None, &id);
                         if let Some(g) = self.ghost.get_mut(&id) {
                             g.0 = now;
                         }
@@ -320,6 +324,11 @@ impl Exec {
                 }
                 continue;
             };
+            // a receive task that died of an error is replaced by the daemon on the next PDU
+            if side == Side::R && self.twins[ti].world.life(Side::R) == Life::Dead && matches!(step, LoopStep::Spawned(_)) {
+                self.twins[ti].world.respawn_receiver();
+                continue;
+            }
             // a replayed PDU of a finished transaction starts a new receive transaction with the same id
             let twin_over = self.twins[ti].world.life(side).over();
             if twin_over && side == Side::R && (self.twins[ti].exited_r) {
@@ -329,7 +338,7 @@ impl Exec {
                     }
                     LoopStep::Pdu => {
                         let now = self.now_ms();
-                        self.pending_cmd.get_mut(&(id, role)).and_then(|q| q.pop_front());
+                        self.pop_pending(None, &id);
                         if let Some(g) = self.ghost.get_mut(&id) {
                             g.0 = now;
                         }
@@ -347,7 +356,10 @@ impl Exec {
                 LoopStep::Spawned(_) => None,
                 LoopStep::Send => Some(ExtEv::Send(side)),
                 LoopStep::Pdu => {
-                    let p = self.pending_cmd.get_mut(&(id, role)).and_then(|q| q.pop_front());
+                    // the daemon routes by (source entity, sequence number) only: a reflected PDU
+                    // reaches the send transaction of that id, whatever its direction flag says
+                    let dmn = if role == "send" { self.twins[ti].spec.from } else { self.twins[ti].spec.to };
+                    let p = self.pop_pending(Some(dmn), &id);
                     match p {
                         Some(p) => Some(ExtEv::Deliver(side, p)),
                         None => return Err(format!("the real {} transaction {:?} processed a PDU the explorer did not inject", role, id)),
@@ -473,6 +485,16 @@ impl Exec {
         Ok(())
     }
 
+    fn pop_pending(&mut self, daemon: Option<usize>, id: &TransactionID) -> Option<PDU> {
+        match daemon {
+            Some(d) => self.pending_cmd.get_mut(&(d, *id)).and_then(|q| q.pop_front()),
+            None => {
+                let key = self.pending_cmd.iter().filter(|(k, q)| k.1 == *id && !q.is_empty()).map(|(k, _)| *k).min_by_key(|k| k.0);
+                key.and_then(|k| self.pending_cmd.get_mut(&k).and_then(|q| q.pop_front()))
+            }
+        }
+    }
+
     fn stray_pdu(&self, daemon: usize, k: usize) -> Option<PDU> {
         let other = (daemon + 1) % self.scn.daemons;
         let hdr = |dir: Direction, src: VariableID, dst: VariableID, seq: u16, ty: PDUType, len: u16| PDUHeader {
@@ -528,6 +550,9 @@ impl Exec {
             4 => Some(mk(Direction::ToReceiver, peer, me, 55, PDUPayload::FileData(FileDataPDU::Unsegmented(UnsegmentedFileData { offset: 0, file_data: vec![9; 8] })))),
             // replay of a PDU that was delivered to this daemon before
             5 => self.finished_pdus.iter().find(|(dd, _)| *dd == daemon).and_then(|(_, b)| PDU::decode(&mut b.as_slice()).ok()),
+            // a PDU this daemon sent itself, reflected back to it (looped-back link)
+            6 => self.sent_pdus.iter().find(|(dd, _)| *dd == daemon).and_then(|(_, b)| PDU::decode(&mut b.as_slice()).ok()),
+            7 => self.sent_pdus.iter().rev().find(|(dd, _)| *dd == daemon).and_then(|(_, b)| PDU::decode(&mut b.as_slice()).ok()),
             _ => None,
         }
     }
@@ -602,11 +627,7 @@ impl Exec {
     async fn inject(&mut self, to: usize, bytes: &[u8]) {
         if let Ok(pdu) = PDU::decode(&mut &bytes[..]) {
             let id = TransactionID(pdu.header.source_entity_id, pdu.header.transaction_sequence_number);
-            let role: &'static str = match pdu.header.direction {
-                Direction::ToReceiver => "recv",
-                Direction::ToSender => "send",
-            };
-            self.pending_cmd.entry((id, role)).or_default().push_back(pdu.clone());
+            self.pending_cmd.entry((to, id)).or_default().push_back(pdu.clone());
             self.finished_pdus.push((to, bytes.to_vec()));
             let _ = self.d[to].in_tx.send(pdu).await;
         }
@@ -668,6 +689,7 @@ impl Exec {
                         PDU::decode(&mut want.as_slice()).map(|p| pdu_brief(&p)).unwrap_or_default()
                     ));
                 }
+                self.sent_pdus.push((*dmn, bytes.clone()));
                 match self.daemon_of(&got.0) {
                     Some(to) => self.inflight.push(Flight { to, bytes }),
                     None => return Err(format!("a PDU was addressed to unknown entity {:?}", got.0)),
